@@ -184,5 +184,6 @@ LEVEL_TEXT = ('Generated-input search: the one-level non-separable analysis/synt
               'with the separable ones as whole operators (basis inputs) and on dense inputs, over wavelets, '
               '2-/4-tuples with different row/column wavelets, 4 modes, odd / short / non-square sizes; '
               'acceptance must agree too. Thorough tier visits every wavelet x mode x direction.')
+LEVEL_TEXT += (' Also generated: mode spelled per, hand-made banks with integer-typed taps as integer arrays / lists.')
 LEVEL_NOTE = 'Differential against the separable path only (its agreement with PyWavelets is C01/C10); sizes <= 24x24.'
 TECHNIQUE = 'property-based testing (Hypothesis), differential oracle separable vs non-separable'
